@@ -751,6 +751,17 @@ def table_lines(ctx, n, kind="rt", prefix="", small=False, incons=0.08):
     for i in range(n):
         t = gen.rtable(r, consistent=(r.random() >= incons), big=(i % 40 == 0), small=small)
         out.append((t, "%s%s %s" % (prefix, kind, t.script())))
+    if not small:
+        # elements whose packed length crosses the 2-, 3- (and, thorough, 4-) group thresholds, in a
+        # string or binary column of every encoding: byte-size header, length prefixes, skip distance
+        lens = [16384, 16400, 32768 + 100, 2097152, 2097160] if ctx.tier == "quick" else \
+               [16383, 16384, 16400, 16511, 16512, 32768 + 100, 2097151, 2097152, 2097160, 4194304 + 3, 16777216 + 5]
+        for ln in lens:
+            tid = r.choice([10, 12])
+            big = (gen.rbytes(r, 61) * (ln // 61 + 1))[:ln]
+            o = ref.Obj(tid, [big, b"x", big] if ln < 3000000 else [big])
+            t = ref.Table([], [[(b"Name", ref.Obj(10, [b"c0"]), None)]], [[((r.choice([0, 1, 2]), o), [])]])
+            out.append((t, "cap=100000000 %s%s %s" % (prefix, kind, t.script())))
     return out
 
 
@@ -866,6 +877,19 @@ def check_c04(res, ctx, be=False):
         e = p.encode(be)
         b = bytes(e.b)
         l = "fr %s -" % b.hex()
+        lines.append(l)
+        exp[l] = ref.dump_file(p, len(b), None, be) + " live=0"
+
+    for ln in ([128, 16384, 16400, 32768 + 100, 2097152, 2097160] if ctx.tier == "quick" else
+               [128, 16383, 16384, 16400, 16511, 16512, 32768 + 100, 2097151, 2097152, 2097160, 4194304 + 3, 16777216 + 5]):
+        tid = r.choice([10, 12])
+        big = (gen.rbytes(r, 61) * (ln // 61 + 1))[:ln]
+        va = ref.VA("plain", obj=ref.Obj(tid, [big, b"x"])) if r.random() < 0.5 else \
+            ref.VA("rle", rows=3, runs=bytes([1, 0]), vals=ref.Obj(tid, [big, b"x"]))
+        p = ref.Phys([], [(b"Name", 10, None)], [{b"Name": ref.Obj(10, [b"c0"])}], [[(va, [])]])
+        e = p.encode(be)
+        b = bytes(e.b)
+        l = "cap=100000000 fr %s -" % b.hex()
         lines.append(l)
         exp[l] = ref.dump_file(p, len(b), None, be) + " live=0"
 
@@ -1524,6 +1548,10 @@ def check_c14(res, ctx):
                     why = "the failed call left something in its output argument"
                 elif lv and lv.group(1) != "0":
                     why = "leak or double release after a failed allocation: live=%s" % lv.group(1)
+                elif "valid=0" in body:
+                    why = "a failed sbdf_ts_add changed the slice it was adding to (column count or columns)"
+                elif ":add=" in body and " tsw=0:" in body and " tsw=0:" in b and body.split(" tsw=")[1].split()[0] != b.split(" tsw=")[1].split()[0]:
+                    why = "after a failed and repeated sbdf_ts_add the slice serialises differently from the fault-free run"
                 elif body == b:
                     why = "an allocation failed but every call reported the same results as without the failure"
                 elif not re.search(r"(?:^|[=~:,; a])(-\d+)", body):
